@@ -316,8 +316,15 @@ def o3_o6(ctx, F, roles):
             r = tsym(n["r"])
             fresh = r[0] == "call" and str(r[1]).endswith("Arc::<T>::new") and r[2][0][0] == "call" and \
                 str(r[2][0][1]).endswith("::new") and r[2][0][2] == (("lit", False),)
-            g = [x for x in (hir.guards_of(n, talk["hir"]["body"], tsym) or []) if x[0] == "arm" and x[2] == ("lit", "go")]
-            fresh = fresh and bool(g)
+            # in the arm that handles `go`: the innermost match arm around the assignment also contains the call of command_go
+            same_arm = False
+            for a_ in reversed(anc):
+                if a_.get("k") == "Match" and a_.get("src") == "Normal":
+                    for arm_ in a_["arms"]:
+                        if any(x is n for x, _ in hir.walk(arm_["body"])):
+                            same_arm = any(x.get("k") == "Call" and hir.callee_of(x) == "uci::command_go" for x, _ in hir.walk(arm_["body"]))
+                    break
+            fresh = fresh and same_arm
     ctx.check("C14.O6", "fresh-flag-per-go", fresh, fn=TALK, file=talk["file"],
               what="each `go` must get its own flag so that a stale timer of an earlier search cannot stop the new one", found=fresh)
 
@@ -399,6 +406,30 @@ def command_arm(F, cmd, expand=()):
                 pk = hir.pat_key(a["pat"])
                 if pk == ("lit", cmd) or (isinstance(pk, tuple) and pk and pk[0] == "or" and ("lit", cmd) in pk):
                     return fn, a["body"], sym
+    # the command text may first be mapped to a variant of a command enum (anywhere in the crate), on which the loop then matches
+    variant = None
+    for g in F.fns.values():
+        if not g.get("hir") or g.get("kind") == "Closure":
+            continue
+        gsym = None
+        for n, anc in hir.walk(g["hir"]["body"]):
+            if n.get("k") == "Match" and n.get("src") == "Normal":
+                for a in n["arms"]:
+                    pk = hir.pat_key(a["pat"])
+                    if pk == ("lit", cmd) or (isinstance(pk, tuple) and pk and pk[0] == "or" and ("lit", cmd) in pk):
+                        gsym = gsym or hir.Sym(hir.Env(g["hir"], F), F)
+                        v = gsym(a["body"])
+                        if v[0] == "ctor" and str(v[1]).endswith(("::Some", "::Ok")) and len(v[2]) == 1:
+                            v = v[2][0]
+                        if v[0] == "variant" and not str(v[1]).startswith("std::"):
+                            variant = v
+    if variant is not None:
+        for n, anc in hir.walk(fn["hir"]["body"]):
+            if n.get("k") == "Match" and n.get("src") == "Normal":
+                for a in n["arms"]:
+                    pk = hir.pat_key(a["pat"])
+                    if isinstance(pk, tuple) and (tuple(pk) == variant or (pk and pk[0] == "or" and variant in [tuple(x) for x in pk[1:] if isinstance(x, tuple)])):
+                        return fn, a["body"], sym
     return fn, None, sym
 
 
@@ -461,8 +492,8 @@ def o6b(ctx, F):
         if ok:
             c = sites[0][0]
             g = hir.guards_of(c, body, sym) or []
-            idx = [i for i, x in enumerate(g) if x[0] == "arm" and isinstance(x[2], tuple) and (x[2] == ("lit", cmd) or (x[2][0] == "or" and ("lit", cmd) in x[2]))]
-            inner = [(hir.fmt(x[1], 120), x[2]) for x in g[idx[0] + 1:] if x[0] == "if"] if idx else None
+            # the handler call identifies the command (the arm may be a text pattern or a variant of a command enum)
+            inner = [(hir.fmt(x[1], 120), x[2]) for x in g if x[0] == "if"]
             found = inner
             ok = inner is not None and ("<bool>::load(search_is_running, Ordering::Relaxed)", False) in [(t.replace("std::sync::atomic::Atomic::", ""), p) for t, p in inner]
         ctx.check("C14.O6", "refused-while-searching:%s" % cmd, ok, fn=TALK, file=fn["file"],
